@@ -10,6 +10,8 @@ mod e1_codec;
 mod e1_quorum;
 mod e1_unit;
 mod e2_batchmaker;
+mod e2_mempoolsync;
+mod e2_syncretry;
 mod e2_ownbatch;
 mod e2_quorumwaiter;
 mod e2_sender;
@@ -76,6 +78,9 @@ fn main() {
         "batchmaker" => e2_batchmaker::run(&o),
         "sender" => e2_sender::run(&o),
         "ownbatch" => e2_ownbatch::run(&o),
+        "mempoolsync" => e2_mempoolsync::run(&o),
+        "syncretry" => e2_syncretry::run(&o),
+        "mempoolsync-selftest" => e2_mempoolsync::selftest(&o),
         "quorumwaiter" => e2_quorumwaiter::run(&o),
         "cons" => e3_cons::run(&o),
         "netsim" => e4_netsim::run(&o),
